@@ -103,7 +103,10 @@ Check(ev, prev) ==
         THEN {F("C10", "after maintain: entities join (got, expected)", <<ev.after.join, SortedById(wantAlive)>>)} ELSE {})
   \cup {F("C10", "a join during the run missed a live entity or yielded an unknown handle", jo[k].hs)
           : k \in {j \in 1..Len(jo) : ~(initLive \subseteq SeqToSet(jo[j].hs) /\ SeqToSet(jo[j].hs) \subseteq liveH)}}
-  \cup (IF \E x \in SeqToSet(queued) \cup SeqToSet(ev.lazy_ran) :
+  \* (equal as multisets; the first disjunct is the same statement for the usual case of distinct tags,
+  \* decided without the quadratic count - floods queue thousands of actions in one frame)
+  \cup (IF ~(Len(queued) = Len(ev.lazy_ran) /\ Cardinality(SeqToSet(queued)) = Len(queued) /\ SeqToSet(queued) = SeqToSet(ev.lazy_ran))
+           /\ \E x \in SeqToSet(queued) \cup SeqToSet(ev.lazy_ran) :
              Cardinality({k \in 1..Len(queued) : queued[k] = x}) # Cardinality({k \in 1..Len(ev.lazy_ran) : ev.lazy_ran[k] = x})
         THEN {F("C10", "queued lazy actions did not each run exactly once (queued, ran)", <<queued, ev.lazy_ran>>)} ELSE {})
 =============================================================================
